@@ -14,6 +14,9 @@ class RecBase:
 
     def _rec(self, kind, args):
         self._log.append((kind, self, args))
+        hook = self.__dict__.get('_react')
+        if hook is not None:
+            hook(self, kind, args)
 
     def on_add(self, *a):
         self._rec('on_add', a)
